@@ -5,6 +5,18 @@ use crate::syn::{self, ast, K, LinkedNode, SyntaxNode};
 
 pub const DIRECTIVE: &str = "@typstyle off";
 
+/// The source with every directive neutralised in place (same length): only inside comments.
+pub fn neutralise(src: &str, root: &SyntaxNode) -> String {
+    let mut out = src.to_string();
+    for f in syn::flatten(root) {
+        if syn::is_comment(f.node.kind()) && f.node.text().contains(DIRECTIVE) {
+            let t = src[f.start..f.end].replace(DIRECTIVE, "@typstyle 0ff");
+            out.replace_range(f.start..f.end, &t);
+        }
+    }
+    out
+}
+
 #[derive(Debug, Clone)]
 pub struct Disabled {
     /// byte range of the disabled node
@@ -112,7 +124,22 @@ pub fn check_verbatim(src: &str, inp: &SyntaxNode, out_text: &str, out: &SyntaxN
     for (i, (x, y)) in a.iter().zip(b.iter()).enumerate() {
         let tx = trim_line_ends(&src[x.start..x.end]);
         let ty = trim_line_ends(&out_text[y.start..y.end]);
-        if tx != ty {
+        // The node's text must appear character for character. Two pairing artefacts are not
+        // differences: (1) typstyle may wrap a broken expression in optional parentheses / braces
+        // (redundant grouping, C01), the directive then precedes the wrapper; (2) adjacent text
+        // runs merge into one Text node, so a disabled Text node is a prefix of the output's.
+        let unwrapped = {
+            let t = ty.trim();
+            if (t.starts_with('(') && t.ends_with(')')) || (t.starts_with('{') && t.ends_with('}')) {
+                Some(t[1..t.len() - 1].trim().to_string())
+            } else {
+                None
+            }
+        };
+        let same = tx == ty
+            || unwrapped.as_deref() == Some(tx.trim())
+            || (x.kind == K::Text && ty.starts_with(&tx));
+        if !same {
             return Err((
                 format!("C07:not-verbatim:{:?}:{:?}", x.parent, x.kind),
                 format!("disabled node #{i} ({:?} under {:?}): {:?} became {:?}", x.kind, x.parent, syn::clip(&tx, 200), syn::clip(&ty, 200)),
